@@ -41,6 +41,10 @@ Next ==
            /\ Len(tree[p].data) + len <= MaxLen
            /\ Go(TRUE, AppendT(p, len, tag)) /\ Log([a |-> "Append", p |-> p, len |-> len, tag |-> tag, held |-> Via(p)])
            /\ tag' = tag + 1 /\ held' = (IF Via(p) THEN "none" ELSE held)
+     \/ \E p \in Files : Via(p) /\ \E len \in {1, 5} :          \* the held file grows through ANOTHER handle; the kept one stays open
+           /\ Len(tree[p].data) + len <= MaxLen
+           /\ Go(TRUE, AppendT(p, len, tag)) /\ Log([a |-> "Append", p |-> p, len |-> len, tag |-> tag, held |-> FALSE])
+           /\ tag' = tag + 1 /\ UNCHANGED held
      \/ \E p \in Files : Clear(p) /\ CanWrite(p) /\ Len(tree[p].data) > 0 /\ Go(TRUE, TruncT(p)) /\ Log([a |-> "Trunc", p |-> p]) /\ UNCHANGED <<tag, held>>
      \/ \E p, q \in Files : Clear(p) /\ Clear(q) /\ p # q /\ Parent[p] = Parent[q] /\ (CanRename(p, q) \/ (Neg /\ p = "A" /\ ~Exists(p)))
            /\ Go(CanRename(p, q), RenameT(p, q)) /\ Log([a |-> "Rename", p |-> p, q |-> q]) /\ UNCHANGED <<tag, held>>
